@@ -409,6 +409,27 @@ CHECKS['C13'] = {
     'level_note': 'Trusted: long double libm for the reference shapes. Not covered: parameter values and membership tables outside the enumerated families.',
 }
 
+
+def c16_jobs(tier):
+    src = ['src/tf.c', 'src/math.c', 'src/a.c']
+    jobs = grid_jobs('filt-f64', 'harness/filt.cpp', src, tier, 16)
+    jobs += grid_jobs('filt-f32', 'harness/filt.cpp', src, 'quick', 8, defs=['-DA_SIZE_REAL=4'])
+    jobs += grid_jobs('filt-f64-asan', 'harness/filt.cpp', src, 'quick', 8, san='asan')
+    return jobs
+
+
+CHECKS['C16'] = {
+    'title': 'transfer function and RC filters realise their difference equations exactly', 'level': 'model_checking', 'engine': 'grid', 'jobs': c16_jobs,
+    'rule': ('exhaustive enumeration of operation sequences on the real filters against a reference evaluated on the whole recorded history (time-indexed sums, no delay line): transfer function - EVERY numerator and denominator order 0..3, EVERY coefficient vector over {-1,0,1,2} (denominator {-1,0,1} in quick; 3400 filters quick, 7225 thorough), '
+             'EVERY input word of length 5 (7 thorough) over {-1,0,1,2}, with a zeroing inserted after 1, 3, .. samples (the suffix must then behave as on a fresh filter); integers, so all comparisons are exact; guard cells around both delay lines, stale contents before init. Linearity (2x, x1+x2) and time invariance (leading zero sample) on ALL pairs of words of length 3 (4 thorough). '
+             'RC filters: alpha in {0,1/8,1/4,1/2,3/4,1} x EVERY word of length 7 (9) over {-2,0,1,3}: low-pass output stays in the range of 0 and the values fed so far and equals the convex combination exactly, high-pass equals alpha*(y + x - x_prev); 400-step settling / decay on constant inputs; extreme-magnitude words (+-REAL_MAX, 1e16) for the range clause; generators on fc, ts in 10^-12..10^12 (in [0,1], strictly inside for 1e-12 <= fc*ts <= 1e12, macros and C++ members agree, monotone). '
+             'states = distinct delay-line contents reached, transitions = filter steps executed, traces_validated_against_impl = input words executed on the real code.'),
+    'assumptions': ['integer / dyadic coefficients and inputs make every filter step exact, so outputs are compared with ==', 'unstable filters make the state space infinite, hence the depth bound; stable and nilpotent coefficient sets are included in the same enumeration'],
+    'design_ref': '§4.C16', 'technique': 'exhaustive enumeration of all input words up to a depth (with zeroing at every other position) on the real filter against a history-indexed reference; all word pairs for linearity/time-invariance',
+    'level_text': 'All input sequences up to length 5 (7 thorough) over a 4-letter alphabet, for every filter of order up to 3/3 over a small coefficient alphabet, are executed on the real code and compared exactly with the difference equation evaluated on the recorded history; linearity and time invariance are checked on all word pairs; the RC filters on all words of length 7 (9) for six exact coefficients.',
+    'level_note': 'Trusted: exact small-integer arithmetic. Not covered: orders above 3, words longer than the depth bound, non-dyadic coefficients (except the settling and extreme-value families).',
+}
+
 # ---------------------------------------------------------------- manifest texts
 CHECKS['C01'].update({
     'design_ref': '§4.C01', 'technique': 'explicit-state BFS to a fixpoint over the real src/avl.c (size-bounded, unbounded history length), lock-step reference set, API-replay conformance of every state',
